@@ -224,14 +224,17 @@ def eval_cases(pid, files, jobs=12, timeout=420):
         if "(" in body and "," in body:
             for t in re.findall(r"\(\s*(-?\d+)\s*,\s*(-?\d+)\s*,\s*(-?\d+)\s*\)", body):
                 i, mm, ss = int(t[0]), int(t[1]), int(t[2])
+                if mm == 2 or ss == 2:
+                    # the run left the domain of M or of S (a binding subject to occurs check -- a cyclic term --
+                    # or the fuel): the case is outside the quantifier, whatever the other side says about it
+                    res["dropped"].append(i)
+                    continue
                 if mm == 1:
                     res["model"].append(i)
                 if ss == 1:
                     res["spec"].append(i)
                 if ss == 3:
                     res["spec3"].append(i)
-                if mm == 2 or ss == 2:
-                    res["dropped"].append(i)
         else:
             res["model"] = [int(x) for x in re.findall(r"-?\d+", body)]
         return f, res, ""
